@@ -231,16 +231,32 @@ example :
   exact run_shift_sorted_late 1 3 exSim0 exSim0_ok exNet 1000000 exGreedyUn (by decide +kernel) (by decide +kernel)
     8 _ (Prod.ext rfl hrun)
 
+/-- the hypotheses of `run_shift_sorted_recompute` are satisfiable in its ALIGNED branch: `exSimLate` (first
+    event in period 1, `max_recompute = 2`), shift 4, `uninterrupted_charging`, round robin -/
+example : ∃ r' V, Sim.run (shiftCfgS 4 exSimLate) (sortedSched exNet 1000000 (shiftCfgS 4 exSimLate) { exGreedyUn with algo := .roundRobin })
+      (4 + 9) (Sim.init (shiftCfgS 4 exSimLate)) = (r', none) ∧
+    ShEquiv 4 V (List.replicate 4 (noneRow exSimLate))
+      (Sim.run exSimLate (sortedSched exNet 1000000 exSimLate { exGreedyUn with algo := .roundRobin }) 9 (Sim.init exSimLate)).1 r' := by
+  have hrun : (Sim.run exSimLate (sortedSched exNet 1000000 exSimLate { exGreedyUn with algo := .roundRobin }) 9
+      (Sim.init exSimLate)).2 = none := by decide +kernel
+  exact run_shift_sorted_recompute 4 exSimLate exSimLate_ok exNet 1000000 _ (by decide +kernel)
+    (Or.inr ⟨2, rfl, Or.inr ⟨2, rfl⟩⟩) 8 _ (Prod.ext rfl hrun)
+
 /-- the hypotheses of `run_shift_sorted_any` are satisfiable: `uninterrupted_charging`, `max_recompute =
     None`, shift 3 -/
 example : ShiftOK exSimNone ∧
+    ShEquiv 3 [] (List.replicate 3 (noneRow exSimNone))
+      (Sim.run exSimNone (sortedSched exNet 1000000 exSimNone exGreedyUn) 9 (Sim.init exSimNone)).1
+      (Sim.run (shiftCfgS 3 exSimNone) (sortedSched exNet 1000000 (shiftCfgS 3 exSimNone) exGreedyUn) (3 + 9)
+        (Sim.init (shiftCfgS 3 exSimNone))).1 ∧
     (Sim.run (shiftCfgS 3 exSimNone) (sortedSched exNet 1000000 (shiftCfgS 3 exSimNone) exGreedyUn) (3 + 9)
         (Sim.init (shiftCfgS 3 exSimNone))).1.pilots.rows
       = (Sim.run exSimNone (sortedSched exNet 1000000 exSimNone exGreedyUn) 9
           (Sim.init exSimNone)).1.pilots.rows.map ([0, 0, 0] ++ ·) ∧
     (Sim.run exSimNone (sortedSched exNet 1000000 exSimNone exGreedyUn) 9 (Sim.init exSimNone)).1.pilots.rows
       ≠ [[0, 0, 0, 0, 0, 0, 0], [0, 0, 0, 0, 0, 0, 0]] :=
-  ⟨exSimNone_ok, by decide +kernel, by decide +kernel⟩
+  ⟨exSimNone_ok, (run_shift_sorted_any 3 exSimNone exSimNone_ok exNet 1000000 exGreedyUn rfl 9).2,
+    by decide +kernel, by decide +kernel⟩
 
 end shift_open_examples
 end Acn.C10
